@@ -289,9 +289,15 @@ func init() {
 					VersionType: resolve.Concrete,
 					Version:     arg(4),
 				}
-				ctx, cancel := context.WithTimeout(context.Background(), 15*time.Second)
+				// A resolver that only stops because its context expired did not terminate
+				// on its own: that is reported as a hang (an unbounded run would also grow
+				// without limit, so the deadline is short).
+				ctx, cancel := context.WithTimeout(context.Background(), 6*time.Second)
 				defer cancel()
 				g, err := r.Resolve(ctx, vk)
+				if ctx.Err() != nil {
+					return sx.L(sx.Sym("hang"))
+				}
 				if err == nil {
 					_ = g.Canon()
 					_ = g.String()
@@ -310,9 +316,12 @@ func init() {
 					VersionType: resolve.Concrete,
 					Version:     arg(4),
 				}
-				ctx, cancel := context.WithTimeout(context.Background(), 15*time.Second)
+				ctx, cancel := context.WithTimeout(context.Background(), 6*time.Second)
 				defer cancel()
 				g, err := r.Resolve(ctx, vk)
+				if ctx.Err() != nil {
+					return sx.L(sx.Sym("hang"))
+				}
 				if err == nil {
 					_ = g.Canon()
 					_ = g.String()
